@@ -27,7 +27,11 @@ RULE = ("(a) input stream: PointID pairs from a pool of ASCII / digit / leading-
         "{translation up to 1e7 m, circle rotation (random, within 1e-6 gon of 0/200/400, onto the +-200 gon seam of the "
         "approximate orientation), permutation of points/clusters/observations, renaming (order preserving and not; "
         "numeric-looking, leading zeros, white space, UTF-8, XML-special), gon->degrees with equivalent stdev, from<->to "
-        "swaps, 8 axes x 2 angle senses}; distinct by (network text, transformation), non-trivial = the original adjusts")
+        "swaps, 8 axes x 2 angle senses}; distinct by (network text, transformation), non-trivial = the original adjusts; "
+        "(c) wrap stream: the real LocalLinearization on (observed value, orientation, bearing) triples whose misclosure is "
+        "every multiple of 200 gon from -800 to 1200 gon (directions), -400..400 (angles), -400..600 with all xNorthAngle "
+        "values (azimuths), offsets 0, +-1e-4 ... +-3e-3 gon, incl. triples with reading, orientation and bearing all in "
+        "[0,400) gon; compared with the mathematical reduction to (-200,200] gon; a hit is realised as a circle-rotation pair")
 LEVEL_TEXT = ("proof for the linearised problem, exploration beyond it: Lean 4 theorems over R about the linearisation "
               "regenerated from local_linearization.cpp on every run: every observation type depends on coordinates only "
               "through differences (translation), turning a circle changes only the right-hand sides of that set by a common "
@@ -38,10 +42,21 @@ LEVEL_TEXT = ("proof for the linearised problem, exploration beyond it: Lean 4 t
               "equivalences built from the index tables, renaming leaves the rows untouched; transported to solutions "
               "(coordinates, residuals, sum of squares, regularisation) by the LS-layer lemmas perm/shift and two sign "
               "lemmas; the normalisation of inconsistent axes/angles conjugates the cluster covariances as the transport "
-              "requires. PointID::operator< is proved to be a strict total order on all byte strings, the sexagesimal "
-              "conversion and the 1/0.324 rescaling are proved exact. NOT proved: the iteration to convergence, the "
-              "approximate-orientation median (C06), number parsing/printing, and the statistics derived from the cofactor "
-              "matrix; these are explored by the metamorphic search on gama-local only.")
+              "requires. Round 3: the row relations are ASSEMBLED for the whole generated pass: the design matrix "
+              "project_equations builds from the mirrored description is D_s A D_t and its least-squares solution is the "
+              "sign-transformed one (exception: an angular right-hand side of exactly +200 gon); a turned direction set "
+              "none of whose rows leaves (-200,200] gon (sufficient: |rhs + c| < 200 gon for the whole set) gives literally "
+              "the same matrix and the solution with only the orientation shifted, a wrapping row is shifted by a non-zero "
+              "number of circles instead; translation gives the identical problem; exchanged ends / identity-preserving "
+              "re-expressions give the renumbered solution. Statistics are transported: reflexive generalised inverses "
+              "under any invertible change of unknowns, sign matrices and permutations, 'belongs to S' preserved, hence "
+              "q_xx' = D_t q_xx D_t, q_bb' = D_s q_bb D_s (sigmas unchanged, covariances between mirrored and other "
+              "unknowns change sign), and on the std_error_ellipse regenerated from network.h the y flip keeps both "
+              "semi-axes and maps the bearing to pi - alpha (mod pi). "
+              "PointID::operator< is proved to be a strict total order on all byte strings; the degrees clause is proved "
+              "on the shared model of deg2gon (Gama.Angles.deg2gon, every accepted string) and the 1/0.324 rescaling is "
+              "proved exact. NOT proved: the iteration to convergence, the approximate-orientation median (C06), number "
+              "parsing/printing; these are explored by the metamorphic search on gama-local only.")
 LEVEL_NOTE = ("The theorems are about exact real arithmetic and about one linearisation; equality of two complete "
               "gama-local runs is explored with tolerances: coordinates 1e-6 m, linear residuals 2e-3 mm, angular "
               "residuals 2e-2 cc, relative 2e-5 for standard deviations / ellipses, 1e-3 for the sum of squares, "
@@ -52,7 +67,11 @@ TECHNIQUE = ("Lean 4 proof (algebra over R on generated definitions, list induct
 TRUSTED = ["tools/gen/c07_meta.py: the re-expressions themselves (what counts as the same survey), the regex reader of the "
            "adjustment XML and the prescribed transformation of results",
            "tools/gen/c05_linearization.py (translator of local_linearization.cpp, validated by C05's correspondence)",
-           "expat, iostream number parsing (the input stream goes through GKFparser)"]
+           "expat, iostream number parsing (the input stream goes through GKFparser)",
+           "tools/gen/c09_stats.py (translator of std_error_ellipse into Gen/StatsGen.lean, validated by C09's correspondence)",
+           "Trig R instance of Lemmas/C07Cofactor.lean: atan2 y x = Complex.arg (x + y i) (same meaning as C09's)",
+           "Gama/Model/Angles.lean deg2gon (shared with C18, tied to gon2deg.cpp by C18's literal stream and by this check's "
+           "dms / ang operations)"]
 MODELLED = ["iteration of the linearised adjustment to convergence (explored only)",
             "printing and parsing of numbers (explored only)",
             "libm (sin/cos/atan2/acos/sqrt)", "std::map<PointID,...> (assumed to iterate in operator< order)",
